@@ -899,7 +899,7 @@ def gen_exhaustive(drv, cap, depth, rich, max_issue, max_frag, start=None, closi
                 if st["infl"] and tc and (cap >= 2 or rich):
                     # ... or the response to it is read in the same loop turn, after the timer fired
                     letters.append(["TD", st["infl"][0], st["infl_t"][0] + T30 - st["clock"], 10 * i])
-                if rich:
+                if rich and not (cap == 1 and depth >= 6):       # (volume: the cap-1 depth-6 rich stream is the largest one)
                     letters.append(["D", [["E", 10 * i], ["H", 10 * i + 2]], 1])      # both in ONE encrypted frame
                     letters.append(["D", [["E", 10 * i], ["H", 10 * i + 2]], 2])      # frame boundary inside the response
                 comp = [r for r in range(st["next"]) if r not in pend]
